@@ -1,6 +1,7 @@
 """C18 - randomised steps are deterministic in their inputs and the given generator/seed."""
 import contextlib
 import json
+import os
 
 import numpy as np
 import numpy.random as npr
@@ -25,6 +26,7 @@ RULE = (
     "distinct = distinct (operation, case JSON)."
     ' Training operations: in a third of the cases a drawn set of Cholesky factorisations fails (injected numpy LinAlgError), identically in every compared run.'
     ' Also: training on 70 / 130 / 260 samples with 40 .. 300 conditions; every training is repeated directly with a fresh model.'
+    ' The second of the two compared runs is restricted to one CPU and started from another working directory.'
 )
 ASSUMPTIONS = [
     "operations that raise for the generated parameters are counted and skipped (they must raise in both runs)",
@@ -498,6 +500,16 @@ def _check_case(case):
         outs = []
         for i in (0, 1):
             st0 = _ambient(case["ambient"][i], case["ambient_draws"][i])
+            # the second run also gets another ambient process state that is no input of the operation: it may use one CPU only (a
+            # scheduler's allowance, another machine) and is started from another working directory
+            cpus0, cwd0 = None, os.getcwd()
+            if i == 1:
+                try:
+                    cpus0 = os.sched_getaffinity(0)
+                    os.sched_setaffinity(0, {min(cpus0)})
+                except (AttributeError, OSError):
+                    cpus0 = None
+                os.chdir(tmp.tmpdir())
             try:
                 with np.errstate(all="ignore"):
                     out = ("ok", run_op(case, case["seed"]))
@@ -505,13 +517,17 @@ def _check_case(case):
                 raise
             except Exception as e:
                 out = ("raised", type(e).__name__)
+            finally:
+                os.chdir(cwd0)
+                if cpus0 is not None:
+                    os.sched_setaffinity(0, cpus0)
             st1 = npr.get_state()
             require(_same_state(st0, st1), op + ".perturbs_global_state", lambda: "%s changed the state of numpy's global generator (position %r -> %r)" % (op, st0[2], st1[2]))
             outs.append(out)
         if outs[0][0] == "raised" or outs[1][0] == "raised":
             require(outs[0] == outs[1], op + ".raises_consistently", lambda: "%s: %r under one ambient state, %r under the other" % (op, outs[0], outs[1]))
             return {"nontrivial": False, "labels": [op, "raised:%s:%s" % (op, outs[0][1])]}
-        require(json.dumps(outs[0][1], sort_keys=True, default=str) == json.dumps(outs[1][1], sort_keys=True, default=str), op + ".depends_on_global_state", lambda: "%s: two runs with identical inputs and an identically seeded generator (seed %d) differ when numpy's global generator is in another state: %s vs %s" % (op, case["seed"], _short(outs[0][1]), _short(outs[1][1])))
+        require(json.dumps(outs[0][1], sort_keys=True, default=str) == json.dumps(outs[1][1], sort_keys=True, default=str), op + ".depends_on_global_state", lambda: "%s: two runs with identical inputs and an identically seeded generator (seed %d; the second run restricted to one CPU, from another working directory) differ when numpy's global generator is in another state: %s vs %s" % (op, case["seed"], _short(outs[0][1]), _short(outs[1][1])))
         # the configuration objects (generator / smoother / scorer / policy) are reusable: seed, other seed, seed again on ONE object
         if op.split(":")[0] in ("gen", "smooth", "cover", "scorer", "score_chunk", "select"):
             shared = {}
